@@ -1398,6 +1398,17 @@ impl<'w> Gen<'w> {
             self.probe(&x(h, vec![], MMsg::RC { sender: RawAddr::valid(victim.as_str()), amount: 5, inner: Inner::CB { id } }));
             self.probe(&x(h, vec![], MMsg::RN { sender: RawAddr::valid(victim.as_str()), token_id: "t001".into(), inner: Inner::CB { id } }));
         }
+        // the freeze itself: with the hostile token rejecting transfers, a forged top-up makes the
+        // victim's exit fail (known finding C18); evaluated in a sub-history on a fork
+        if let (Some(h), Some(((o, id), _))) = (hs.first(), bs.first()) {
+            self.push();
+            self.h.sim.set_hostile_fails(0, true);
+            let init = self.h.resync();
+            self.emit(&init);
+            self.step(&x(h, vec![], MMsg::RC { sender: RawAddr::valid(o.as_str()), amount: 5, inner: Inner::AB { id: *id } }));
+            self.step(&x(o.as_str(), vec![], MMsg::RB { id: *id }));
+            self.pop();
+        }
         // accounts (not contracts) calling the hooks directly
         let u = self.user();
         if let Some(((o, id), _)) = bs.first() {
